@@ -21,6 +21,7 @@ type RKnobs struct {
 	ClockWeight  int  `json:"clock_w"`
 	DrainQueueW  int  `json:"drainq_w"`            // weight of draining an output queue
 	EventCap     int  `json:"event_cap,omitempty"` // capacity of the API event queue (0 = the shipped 10), hook H18
+	EventDrainW  int  `json:"event_drain_w,omitempty"` // weight of receiving an API event (0 = 6): a small value is a server whose event loop is busy
 	// ConcurrentStarts (C16, equal channel counts only): several StartReadCollection calls may be in flight at once
 	ConcurrentStarts bool `json:"concurrent_starts,omitempty"`
 }
@@ -574,6 +575,12 @@ func GenR(rng *Rng, prop string, tier string) *RScript {
 				app(p, &REntry{Ts: t, Kind: "tick"})
 			}
 		}
+	}
+	if prop == "C06" && rng.Pct(50) {
+		// a busy event loop on the server side and a short event queue: the reader has to report a message it cannot
+		// process while the queue is full (queue_backpressure)
+		k.EventCap = 1
+		k.EventDrainW = 1
 	}
 	// a stop of a collection somewhere in C04 scenarios
 	stopped := int64(0)
